@@ -4,7 +4,7 @@ from . import itpcommon
 
 ID = "C08"
 VARIANTS = ["fast"]
-BUDGET = {"quick": (1500, 120), "thorough": (40000, 1500)}
+BUDGET = {"quick": (1100, 110), "thorough": (40000, 1500)}
 RULE = ("Hypothesis-generated unsat-leaning QF_UF (incl. propositional) / QF_LRA / QF_LIA scripts with every assertion named, "
         "push/pop histories with re-asserted popped formulas, every value of :interpolation-bool-algorithm 0-5, "
         "-euf-algorithm {0,2,3}, -lra-algorithm {0,2,3,4,5}, -lra-factor, :proof-reduce (+knobs), :simplify-interpolants 0-4; "
@@ -25,3 +25,5 @@ def check(case, ctx):
 
 def sample(case, res):
     return gen.render(case)
+
+SIGNATURES = itpcommon.SIGNATURES
